@@ -130,7 +130,7 @@ def gen(rng, tier):
                             continue  # parse() is WITHOUT_ROOT by definition; counted once
                         yield {"op": "naming.many", "case": {"cfg": {"dash": dash, "gen": g, "nest": nest}, "api": api,
                                                              "dest": "config", "classes": classes, "root": root}}
-    n = 250 if tier == "quick" else 6000
+    n = 160 if tier == "quick" else 5000
     for _ in range(n):
         names = rng.sample(LEAF_NAMES, len(LEAF_NAMES))
         members = rng.sample(MEMBER_NAMES, len(MEMBER_NAMES))
@@ -265,7 +265,10 @@ def impl(case):
     cand = set()
     for s, e in zip(sets, per_field_exp):
         cand |= set(s or []) | e
-    cand |= {m for m in near_misses(exp_all)}
+    # near-miss spellings: a deterministic, evenly spaced sample (each probe builds a fresh parser)
+    nm = sorted(near_misses(exp_all) - cand)
+    budget = 12
+    cand |= set(nm if len(nm) <= budget else nm[:: max(1, len(nm) // budget)][:budget])
     for opt in sorted(cand):
         if any(o.startswith(opt) and o != opt for o in all_real):
             continue  # abbreviation of a valid option: out of scope ("abbreviations aside")
